@@ -1,25 +1,34 @@
 """C08 — parallelism never exceeds max_workers and is actually delivered."""
 from ..ech import H
 
-LEVEL = "other"
+LEVEL = "model_checking"
+ENGINE = "E-CH+E-SYM+E-TS"
 EXPLANATION = (
     "Step contracts on the real spawn path (CrossHair/z3): _adjust_process_count from an arbitrary process table "
     "spawns exactly max(0, max_workers-len) under the management lock and never exceeds; _ensure_executor_running "
     "tops up iff len != max_workers before the manager is started; the pid-message branch of process_result_item "
     "re-spawns only when len < max_workers, under the lock, up to max_workers. E-SYM: call-queue capacity "
     "2*max_workers+EXTRA_QUEUED_CALLS >= max_workers+1 for every max_workers >= 1. |processes| <= max_workers is "
-    "preserved by each step, hence by every history of steps.")
+    "preserved by each step, hence by every history of steps. E-TS slice x3: a worker leaving on its idle time-out "
+    "while a user thread submits (real process_result_item / submit / _adjust_process_count, all interleavings, "
+    "replayed): the pool is topped up again whenever work is pending, and never beyond max_workers.")
 ASSUMPTIONS = [
     "'tasks executing concurrently <= registered workers' because a worker runs one call item at a time (sequential loop of _process_worker)",
-    "interleavings between submitters and the manager are serialised by the management lock, which the harness checks is held at every Process() creation",
+    "interleavings between submitters and the manager: searched in slice x3 (max_workers=1, one leaving worker); elsewhere serialised by the management lock, which the harness checks is held at every Process() creation",
 ]
 P = "lokyverif.harness.c08_pool_size"
 PE = "loky.process_executor:"
 
 
+def SL(name, builder, K, timeout_s=1500, params=None):
+    return ("lokyverif.ets.units_exec", "slice_unit", dict(prop="C08", name=name, builder=builder, K=K,
+                                                            timeout_s=timeout_s, params=params))
+
+
 def units(tier):
     t = 900 if tier == "thorough" else 300
     return [
+        SL("slice.worker_exit_vs_submit", "x3_worker_exit_vs_submit", 50),
         H("C08", P, "check_adjust", t, [PE + "ProcessPoolExecutor._adjust_process_count"], "0..4 registered, max_workers 1..4"),
         H("C08", P, "check_ensure_running", t, [PE + "ProcessPoolExecutor._ensure_executor_running"], "0..4 registered, max_workers 1..4"),
         H("C08", P, "check_pid_message", t, [PE + "_ExecutorManagerThread.process_result_item"], "1..3 workers, max_workers 1..3, pending/running counts 0..3, executor alive or collected"),
